@@ -79,6 +79,11 @@ def make_replay(C, prop, h, res):
         else:
             detail += "kani produced no concrete values; "
     mode = h.get("replay", "native")
+    if res.get("progress_violation"):
+        # "the loop does not terminate within the claimed bound": natively that is a hang, which proves nothing in
+        # finite time; the counterexample is confirmed by the independent kani-driver run above instead
+        mode = "trace"
+        art["progress_violation"] = True
     art["replay_mode"] = mode
     with open(path, "w") as f:
         json.dump(art, f, indent=1)
